@@ -20,6 +20,24 @@ Proof.
   - repeat split; try lia.
 Qed.
 
+(* ---- stride detection's score array ---- *)
+Lemma score_len_inv n : 32 <= score_len n /\ N.of_nat n * 8 + 7 < score_len n.
+Proof.
+  induction n as [|k [IH1 IH2]]; [cbn; lia|].
+  cbn [score_len]. unfold score_grow. rewrite Nat2N.inj_succ in *.
+  destruct (N.leb_spec (score_len k) (N.succ (N.of_nat k) * 8 + 7)); lia.
+Qed.
+Lemma choose_stride_holds n :
+  choose_stride_ok n = true /\
+  forall index, index < N.of_nat n -> (1 + index) * 8 + 8 <= score_len n.
+Proof.
+  destruct (score_len_inv n) as [H1 H2]. split.
+  - unfold choose_stride_ok. apply andb_true_iff. split; apply N.ltb_lt; lia.
+  - intros index Hi. lia.
+Qed.
+Lemma choose_stride_unfixed_fails : choose_stride_ok_unfixed 3 = false /\ choose_stride_ok_unfixed 7 = false.
+Proof. vm_compute. split; reflexivity. Qed.
+
 Section WithDict.
 Variable dict_word : N -> N -> list N.
 Variable transforms : list (list N * N * list N).
